@@ -262,10 +262,10 @@ func bigStr(x *big.Int) []byte {
 }
 
 func structuredFamilies(r *mon.Run) []family {
-	K := r.N(400_000, 20_000_000)   // MaxInt64 ± k
-	J := r.N(500, 200_000)          // 10^e ± j, 2^e ± j
-	G := r.N(20_000, 5_000_000)      // accumulator neighbourhood of MaxInt/10
-	W := r.N(500, 200_000)          // wrap landing points
+	K := r.N(400_000, 20_000_000) // MaxInt64 ± k
+	J := r.N(500, 100_000)        // 10^e ± j, 2^e ± j
+	G := r.N(20_000, 2_000_000)   // accumulator neighbourhood of MaxInt/10
+	W := r.N(500, 200_000)        // wrap landing points
 	div10 := new(big.Int).SetUint64(math.MaxInt64 / 10)
 	two64 := new(big.Int).Lsh(big.NewInt(1), 64)
 	var fams []family
@@ -493,7 +493,11 @@ func TestC30(t *testing.T) {
 
 	walls := map[string]float64{}
 	t0 := time.Now()
-	lap := func(name string) { walls[name] = time.Since(t0).Seconds(); t0 = time.Now(); r.Set("section_wall_s", walls) }
+	lap := func(name string) {
+		walls[name] = time.Since(t0).Seconds()
+		t0 = time.Now()
+		r.Set("section_wall_s", walls)
+	}
 	// --- A: structured decimal strings
 	fams := structuredFamilies(r)
 	total := 0
